@@ -287,6 +287,9 @@ def pairs():
         ([ja], [P("parse d1 as Drawing (lxml)")], []),
         ([ja], [P("parse d2 as Drawing (native)")], [auto_b]),
         ([ja], [P("parse d1 as Drawing (lxml)")], [auto_b]),
+        # cold metadata of one class built by two serializing threads at once
+        ([P("serialize Pick with prefix map")], [P("serialize Pick with prefix map")], []),
+        ([P("serialize Sched 1")], [P("serialize Sched 2")], []),
     ]
 
 
